@@ -42,7 +42,7 @@ theorem leaveRoom_sess (a : Acc) (s : Nat) {orph : List Nat} (hi : InvX orph a.h
 
 theorem InvG.mono {orph : List Nat} {h : Hub} (hi : InvX orph h) (v : Nat)
     (hv : ∀ y, h.sess v = some y → y.kind = .virtual) : InvX (v :: orph) h := by
-  obtain ⟨f1, f2, f3, f4, f5, f6, f7, f8, f9, f10, f11, f12, f13, f14, f15, f16, f17, f18, f19, f20, f21, f22, f23⟩ := hi
+  obtain ⟨f1, f2, f3, f4, f5, f6, f7, f8, f9, f10, f11, f12, f13, f14, f15, f16, f17, f18, f19, f20, f21, f22, f23, f24⟩ := hi
   constructor
   all_goals first | assumption | skip
   · intro w x hx hk; have := f13 w x hx hk; grind
@@ -54,7 +54,7 @@ theorem facts_vtable : Generated.Hub.vtableClearedOnClose = true := by decide
 /-- Shrinking the orphan list by a session that is gone. -/
 theorem InvG.shrink_dead {orph : List Nat} {h : Hub} (hi : InvX orph h) (v : Nat) (hv : h.sess v = none) :
     InvX (removeL orph v) h := by
-  obtain ⟨f1, f2, f3, f4, f5, f6, f7, f8, f9, f10, f11, f12, f13, f14, f15, f16, f17, f18, f19, f20, f21, f22, f23⟩ := hi
+  obtain ⟨f1, f2, f3, f4, f5, f6, f7, f8, f9, f10, f11, f12, f13, f14, f15, f16, f17, f18, f19, f20, f21, f22, f23, f24⟩ := hi
   constructor
   all_goals first | assumption | skip
   · intro w x hx hk; have := f13 w x hx hk; grind [mem_removeL]
@@ -70,7 +70,7 @@ theorem dropChild_inv {orph : List Nat} {h : Hub} (hi : InvX orph h) {v : Nat} {
   | none => exact hm
   | some p =>
     simp only []
-    obtain ⟨f1, f2, f3, f4, f5, f6, f7, f8, f9, f10, f11, f12, f13, f14, f15, f16, f17, f18, f19, f20, f21, f22, f23⟩ := hm
+    obtain ⟨f1, f2, f3, f4, f5, f6, f7, f8, f9, f10, f11, f12, f13, f14, f15, f16, f17, f18, f19, f20, f21, f22, f23, f24⟩ := hm
     have hne : x.parent ≠ v := (f13 v x hx hk).2.2.1
     constructor
     all_goals (intros; simp only [hubf] at *; grind [mem_removeL, removeL_nil])
@@ -83,7 +83,7 @@ theorem dropVirtual_inv {orph : List Nat} {h : Hub} {v : Nat} (hi : InvX (v :: o
     InvX (removeL orph v) (dropVirtual h v x) := by
   unfold dropVirtual
   simp only [facts_vtable, if_true]
-  obtain ⟨f1, f2, f3, f4, f5, f6, f7, f8, f9, f10, f11, f12, f13, f14, f15, f16, f17, f18, f19, f20, f21, f22, f23⟩ := hi
+  obtain ⟨f1, f2, f3, f4, f5, f6, f7, f8, f9, f10, f11, f12, f13, f14, f15, f16, f17, f18, f19, f20, f21, f22, f23, f24⟩ := hi
   constructor
   all_goals (intros; simp only [hubf] at *; grind [mem_removeL])
 
@@ -159,7 +159,7 @@ set_option maxHeartbeats 2000000 in
 theorem dropClient_inv {h : Hub} (hi : Inv h) {s : Nat} {x : Sess} (hx : h.sess s = some x)
     (hk : x.kind ≠ .virtual) (hr : x.room = none) : InvX x.children (dropClient h s x) := by
   unfold dropClient
-  obtain ⟨f1, f2, f3, f4, f5, f6, f7, f8, f9, f10, f11, f12, f13, f14, f15, f16, f17, f18, f19, f20, f21, f22, f23⟩ := hi
+  obtain ⟨f1, f2, f3, f4, f5, f6, f7, f8, f9, f10, f11, f12, f13, f14, f15, f16, f17, f18, f19, f20, f21, f22, f23, f24⟩ := hi
   have hch : ∀ v, v ∈ x.children → ∃ vx, h.sess v = some vx ∧ vx.kind = .virtual ∧ vx.parent = s :=
     fun v hv => f14 s x v hx hv
   have hcu : ∀ c s1 s2 x1 x2, h.sess s1 = some x1 → x1.conn = some c → h.sess s2 = some x2 → x2.conn = some c → s1 = s2 := by
@@ -274,7 +274,7 @@ theorem closeSession_inv (a : Acc) (s : Nat) (hi : Inv a.h) : Inv (closeSession 
 
 theorem closeConn_inv {h : Hub} (hi : Inv h) (c : Nat) (hc : ∀ s x, h.sess s = some x → x.conn ≠ some c) :
     Inv (closeConn h c) := by
-  obtain ⟨f1, f2, f3, f4, f5, f6, f7, f8, f9, f10, f11, f12, f13, f14, f15, f16, f17, f18, f19, f20, f21, f22, f23⟩ := hi
+  obtain ⟨f1, f2, f3, f4, f5, f6, f7, f8, f9, f10, f11, f12, f13, f14, f15, f16, f17, f18, f19, f20, f21, f22, f23, f24⟩ := hi
   constructor
   all_goals (intros; simp only [hubf] at *; grind [mem_removeL])
 
